@@ -230,6 +230,100 @@ class Repo:
         fresh = [m for m in self.modules.values() if share is None or share.modules.get(m.name) is not m]
         callnorm.canonicalise(self, fresh)
 
+    # ------------------------------------------------------------------ integer-valued attributes
+    @property
+    def int_texts(self) -> set:
+        """Texts `self.<name>` of attributes every store of which, anywhere in the package, is an integer-valued expression
+        (integer literal, len(), int(), sums/differences/products of those or of the attribute itself).  Comparisons between
+        such values may be rewritten with integer arithmetic (`a + 1 < b` is `not b < a + 2`), see sa.conds."""
+        if getattr(self, "_int_texts", None) is None:
+            stores: dict[str, list] = {}
+
+            def is_int(e, name) -> bool:
+                if isinstance(e, ast.Constant):
+                    return isinstance(e.value, int) and not isinstance(e.value, bool)
+                if isinstance(e, ast.Call) and isinstance(e.func, ast.Name) and e.func.id in ("len", "int", "ord") and not e.keywords:
+                    return True
+                if isinstance(e, ast.UnaryOp) and isinstance(e.op, (ast.USub, ast.UAdd)):
+                    return is_int(e.operand, name)
+                if isinstance(e, ast.BinOp) and isinstance(e.op, (ast.Add, ast.Sub, ast.Mult)):
+                    return is_int(e.left, name) and is_int(e.right, name)
+                if isinstance(e, ast.Attribute) and e.attr == name:
+                    return True
+                return False
+
+            for mod in self.modules.values():
+                for n in ast.walk(mod.tree):
+                    targets, value = [], None
+                    if isinstance(n, ast.Assign):
+                        targets, value = n.targets, n.value
+                    elif isinstance(n, (ast.AugAssign, ast.AnnAssign)):
+                        targets, value = [n.target], n.value
+                        if isinstance(n, ast.AugAssign) and not isinstance(n.op, (ast.Add, ast.Sub, ast.Mult)):
+                            value = None
+                    elif isinstance(n, (ast.For, ast.comprehension, ast.With, ast.NamedExpr, ast.Delete)):
+                        tl = [n.target] if hasattr(n, "target") else (n.targets if isinstance(n, ast.Delete) else [i.optional_vars for i in n.items if i.optional_vars is not None])
+                        for t in tl:
+                            for x in ast.walk(t):
+                                if isinstance(x, ast.Attribute):
+                                    stores.setdefault(x.attr, []).append((None, None))
+                        continue
+                    for t in targets:
+                        for x in ([t] if not isinstance(t, (ast.Tuple, ast.List)) else ast.walk(t)):
+                            if isinstance(x, ast.Attribute):
+                                stores.setdefault(x.attr, []).append((value if x is t else None, x.attr))
+                    if isinstance(n, ast.ClassDef):
+                        for st in n.body:  # class-level defaults are read through the instance too
+                            if isinstance(st, ast.Assign):
+                                for t in st.targets:
+                                    if isinstance(t, ast.Name):
+                                        stores.setdefault(t.id, []).append((st.value, t.id))
+                            elif isinstance(st, ast.AnnAssign) and isinstance(st.target, ast.Name) and st.value is not None:
+                                stores.setdefault(st.target.id, []).append((st.value, st.target.id))
+                            elif isinstance(st, (ast.FunctionDef, ast.AsyncFunctionDef)):
+                                stores.setdefault(st.name, []).append((None, None))  # a method / property of that name
+            # setattr with a computed name may store anything into the objects of that class family
+            tainted: set = set()
+            everything = False
+            owners: dict[str, set] = {}  # attribute name -> classes whose methods store self.<name>
+            for cls in self.classes.values():
+                for m in cls.methods.values():
+                    for n in ast.walk(m.node):
+                        if isinstance(n, ast.Attribute) and isinstance(n.ctx, (ast.Store, ast.Del)) and isinstance(n.value, ast.Name) and n.value.id == "self":
+                            owners.setdefault(n.attr, set()).add(cls.qualname)
+                        if isinstance(n, ast.Call) and isinstance(n.func, ast.Name) and n.func.id == "setattr" and len(n.args) >= 2:
+                            if isinstance(n.args[1], ast.Constant) and isinstance(n.args[1].value, str):
+                                stores.setdefault(n.args[1].value, []).append((None, None))
+                                continue
+                            recv = n.args[0]
+                            targets_cls = []
+                            if isinstance(recv, ast.Name) and recv.id == "self":
+                                targets_cls = [cls]
+                            elif isinstance(recv, ast.Attribute) and isinstance(recv.value, ast.Name) and recv.value.id == "self":
+                                for m2 in cls.methods.values():
+                                    for a2 in ast.walk(m2.node):
+                                        if isinstance(a2, ast.Assign) and any(norm(t) == norm(recv) for t in a2.targets) and isinstance(a2.value, ast.Call):
+                                            tc = self.resolve(cls.module, dotted(a2.value.func) or "")
+                                            if isinstance(tc, ClassInfo):
+                                                targets_cls.append(tc)
+                            if not targets_cls:
+                                everything = True
+                            for tc in targets_cls:
+                                tainted.add(tc.qualname)
+                                tainted.update(c.qualname for c in tc.mro)
+                                tainted.update(c.qualname for c in self.classes.values() if tc in c.mro)
+            seen_in_methods = sum(1 for cls in self.classes.values() for m in cls.methods.values() for n in ast.walk(m.node)
+                                  if isinstance(n, ast.Call) and isinstance(n.func, ast.Name) and n.func.id == "setattr")
+            in_tree = sum(1 for mod in self.modules.values() for n in ast.walk(mod.tree)
+                          if isinstance(n, ast.Call) and isinstance(n.func, ast.Name) and n.func.id == "setattr")
+            if in_tree > seen_in_methods or any("__dict__" in ast.dump(n) for mod in self.modules.values() for n in ast.walk(mod.tree) if isinstance(n, ast.Attribute) and n.attr == "__dict__" and isinstance(n.ctx, ast.Store)):
+                everything = True  # a setattr outside the methods looked at
+            self._int_texts = set()
+            if not everything:
+                self._int_texts = {f"self.{name}" for name, vals in stores.items()
+                                   if vals and all(v is not None and is_int(v, name) for v, _ in vals) and owners.get(name) and not (owners[name] & tainted)}
+        return self._int_texts
+
     # ------------------------------------------------------------------ loading
     def _load(self):
         pkg_root = os.path.join(self.root, PKG)
